@@ -129,6 +129,11 @@ def run(ctx):
             x = F.mk_neuron(f, soma=None)
             hist = []
             warmed = set()
+            if rng.random() < 0.5:
+                for v in ('graph', 'igraph', 'segments'):
+                    if guarded(read_view, x, v)[0] == 'ok':
+                        warmed.add(v)
+                hist.append(dict(step='warm', views=['graph', 'igraph', 'segments']))
             dirty = False
             for k in range(int(rng.integers(2, maxsteps + 1))):
                 kind = str(rng.choice(['warm', 'op', 'op', 'edit']))
@@ -153,6 +158,18 @@ def run(ctx):
                     st, res = guarded(op.apply, x, p, inplace)
                     hist.append(dict(step='op', op=name, params=p, inplace=inplace, status=st))
                     ctx.count('op:' + name)
+                    if st == 'ok' and not inplace:
+                        # the input left behind: its table is unchanged, so every (possibly cached) view must still describe it
+                        st0, fr0 = guarded(fresh, x)
+                        for v in (sorted(warmed) if warmed else []):
+                            s1, got = guarded(read_view, x, v)
+                            s2, want = guarded(read_view, fr0, v) if st0 == 'ok' else ('skip', None)
+                            ctx.case((F.table_of(x), str(hist[-3:]), v, 'input-left-behind'), nontrivial=bool(warmed))
+                            ctx.count('view-of-input:' + v)
+                            if s1 == 'ok' and s2 == 'ok' and not same(got, want):
+                                ctx.violation('a cached view of the INPUT of a non-inplace operation no longer matches its (unchanged) node table',
+                                              dict(start=f, backend=be, history=list(hist), view=v), dict(got=short(got), fresh=short(want)))
+                                break
                     if st == 'ok':
                         nxt = res[0] if isinstance(res, list) else res
                         if inplace or nxt is None:
